@@ -252,6 +252,8 @@ def shards(tier):
                 sh.append({"kind": "enum", "maxlen": w, "prefix": [a, b], "depth": depth})
     for i in range(16):
         sh.append({"kind": "walk", "n": 1500 if th else 120, "maxsteps": 300 if th else 80})
+    for i in range(4):
+        sh.append({"kind": "circuit_ping", "n": 1500 if th else 150})
     return sh
 
 
@@ -324,14 +326,58 @@ def _walk_body(ctx, maxsteps):
     return body
 
 
+def _circuit_ping(ctx, n):
+    """the second place the forward translation is applied: ProxiedCircuit rewrites StartPingCheck.OldestUnacked with it.  Driven
+    through C05's circuit harness (both directions, injections, drops); only the ping verdicts belong to this property."""
+    from hypothesis import strategies as st
+    from checks import c05
+    ev = st.one_of(c05.EV, st.tuples(st.just("ping"), st.sampled_from([c05.V, c05.S]), st.sampled_from(["oldest", "newest", "next"])),
+                   st.tuples(st.just("inject"), st.sampled_from([c05.V, c05.S]), st.booleans()))
+
+    def body(case):
+        wire, events = case["wire"], case["events"]
+        h = c05.Harness(wire=wire)
+        res = []
+        pings = 0
+        for e in events:
+            r = h.step(tuple(e))
+            if r is None:
+                continue
+            if e[0] == "ping":
+                pings += 1
+            res.extend(x for x in r if x[0].startswith("ping:"))
+            if r:
+                break
+        h.teardown()
+        after_inj = "inject" in [t[0] for t in h.trace] and pings > 0
+        ctx.case(case, nontrivial=after_inj, classes=["circuit_ping"] + (["ping_after_injection"] if after_inj else []))
+        return res
+    hyp_run(ctx, st.fixed_dictionaries({"wire": st.booleans(), "events": st.lists(ev, min_size=3, max_size=40)}), body, n)
+
+
 def run_shard(ctx, shard):
-    if shard["kind"] == "enum":
+    if shard["kind"] == "circuit_ping":
+        _circuit_ping(ctx, shard["n"])
+    elif shard["kind"] == "enum":
         _enum(ctx, shard["maxlen"], shard["prefix"], shard["depth"])
     else:
         hyp_run(ctx, walk_strategy, _walk_body(ctx, shard["maxsteps"]), shard["n"])
 
 
 def replay(ctx, case):
+    if isinstance(case, dict) and "events" in case:
+        from checks import c05
+        h = c05.Harness(wire=case["wire"])
+        res = []
+        for e in case["events"]:
+            r = h.step(tuple(e))
+            if r is None:
+                continue
+            res.extend(x for x in r if x[0].startswith("ping:"))
+            if r:
+                break
+        h.teardown()
+        return res
     if isinstance(case, dict):
         maxlen, syms = case["maxlen"], case["history"]
     else:
